@@ -297,11 +297,12 @@ def julianDateToDatetime(julian_date):
         datetime: Converted ``datetime`` object.
     """
     year, month, day, hour, minute, second = julian_date.calendar_date
-    date_time = datetime(int(year), int(month), int(day), int(hour), int(minute), int(second))
+    date_time = datetime(int(year), int(month), int(day), int(hour), int(minute))
     # Handle floating-point error in JulianDate -> calendar date/time conversion
     # [NOTE] This implementation assumes that time steps will always be multiples of whole seconds.
-    if int(second) != second and round(second) == 60:
-        date_time += timedelta(seconds=1)
+    #   The seconds recovered from a Julian date carry floating-point error in either direction
+    #   (e.g. 32.99999 or 33.00001), so round to the nearest whole second instead of truncating.
+    date_time += timedelta(seconds=round(second))
 
     return date_time
 
